@@ -4,33 +4,33 @@ usage: tools/seed_prompts.py <dir>   -- expects worktrees <dir>/C01..C20, writes
 import json, sys
 D = sys.argv[1]
 AVOID = {
-"C01": "a 1e-12 slack in the threshold comparison; a finite initial best value; cancelling points shared by both diagrams; a module-level scratch cost matrix reused between calls; a finite 'forbidden' sentinel computed from the cross block only; input-normalisation changes at the top of bottleneck()",
-"C02": "an np.allclose fast path; a transposed diagonal block; sklearn pairwise_distances instead of cdist; a finite sentinel instead of inf; an empty-diagram fast path placed before the second diagram's infinite-death filter; a module-level buffer cache keyed by M+N",
-"C03": "re-insertion tie handling via A[ind:]; np.allclose duplicate detection; a filter dropping negative births; an off-by-one scan-resume pointer for touching bars; dropping empty diagrams before indexing by hom_deg; a plain lexicographic initial sort",
-"C04": "np.isclose in the isotropic fast-path test; de-duplicating rows with multiplicities; hoisting marginal CDFs in bvn_cdf for negative correlation; linear_ramp keeping an integer dtype; skipping pairs whose weight is not positive; not forwarding skew in the n_jobs branch",
-"C05": "dropping leftover capacity in check_assignment_feasibility; early return in find_ub for equal sizes; keeping only maximal rows in the Theorem-B check; mirroring lower bounds into the upper-bound matrix; frequency tables stored in the distance matrix's dtype; a label-dependent 'not isometric' trivial bound",
-"C06": "detecting diagonal-diagonal rows by cost; a row filter dropping index-0 diagonal matches; comparing the column index against M instead of N; no placeholder for diagrams emptied by the inf filter; removing birth==death points before matching in wasserstein; an off-by-one in the bottleneck matching extraction loop",
-"C07": "cancelling common points in bottleneck; a finite sentinel instead of inf in wasserstein; a sorted-columns equality shortcut; a per-size workspace reused between calls; sklearn pairwise_distances for the cross block; stripping near-diagonal points with np.isclose",
-"C08": "snapping with searchsorted; computing grid indices by int((b-start)/step); `start or min` defaults; skipping bars narrower than two steps; rounded float keys in the grid dictionary; a copy-paste slip of start/stop in the transformer constructor",
-"C09": "a sign dropped in the coincident-breakpoint branch of sum_slopes; in-place accumulation in approx __add__; a signed merge in exact __sub__; snap_pl keeping the values dtype; moving compute_landscape() calls so that a lazily built right operand is never computed; rejecting tiny non-zero divisors",
-"C10": "a duplicated clause in the sign-crossing test; sup norm over depth 0 only; np.isclose in the flat-segment test; stopping the depth loop at the first zero depth; values_to_pairs keeping an integer dtype; p_norm computing the landscape only on the sup-norm path",
-"C11": "np.unique on the diagram; dropping the private copy before the skew; a stale cdf cache keyed by the first birth; not forwarding skew in the parallel branch; linear_ramp using zeros_like(pers) (integer truncation); mis-restoring the order / dropping arguments in the parallel branch",
-"C12": "an early return in _create_mesh; floor division in the pixel count; np.isclose snapping of the pixel count; the pixel_size setter re-padding the requested ranges; padding computed with a float modulo; fit_transform not forwarding skew to fit",
-"C13": "a signed xmy in the Genz branch; np.isclose in the gaussian dispatch; a wrong Gauss-Legendre abscissa digit; width/height mixed up in the uniform kernel; sbvn_cdf standardising its inputs in place; moving the non-negativity clamp in the Genz tail",
-"C14": "an np.allclose fast path; np.unique on the points; a 3-sigma truncation; expanding |p-q|^2 as |p|^2+|q|^2-2pq; memoising the self kernel by object identity; partial sums stored in the diagram's dtype",
-"C15": "a module-level cache of directions; a sort(axis=0) equality shortcut; directions from a float np.arange; an np.isclose pre-filter of diagonal points; an in-place centring preamble; a module-level diagonal-projection helper with a subtle sign/shape slip",
-"C16": "in-place substitution of infinities; np.all(l) > 0; hoisting the normalisation out of the per-diagram loop; np.minimum as the infinity substitution; `if val_inf:` truthiness; clamping the total length with max(sum, 1e-10)",
-"C17": "an unsigned dtype bound; copying lower bounds into the upper-bound matrix; picking the largest component by size equality; reducing dense inputs to the upper triangle; a label-dependent isometry test in find_lb; restricting to the largest component before shortest paths",
-"C18": "in-place division of the fitted mesh; `if not self.start`; keeping the old range on a degenerate axis in fit; nesting the fixed-stop test under the fixed-start test; applying the dispatch permutation twice in the parallel transform; fit_transform not forwarding skew",
-"C19": "np.asarray instead of a copy in plot_diagrams; random.randrange in construct_mapping; np.nan_to_num(copy=False) in persistent_entropy; in-place accumulation in approx __add__; shortest_path(overwrite=True) on the caller's array; in-place updates in the isotropic fast path of _transform",
-"C20": "np.asarray instead of a copy in plot_diagrams; idx/i confusion in the highlight test; the diagonal foot of (-1, j) rows taken from the first diagram; lifetime conversion moved into the scatter loop; axis range from rows with finite death only; a mix-up in the plot_landscape_simple dispatcher",
+"C01": "a 1e-12 slack in the threshold comparison; a finite initial best value; cancelling points shared by both diagrams; a module-level scratch cost matrix reused between calls; a finite 'forbidden' sentinel computed from the cross block only; input-normalisation changes at the top of bottleneck(); a wrong slice for the diagonal/diagonal block of the cost matrix; skipping ahead in the binary search by the matching deficiency",
+"C02": "an np.allclose fast path; a transposed diagonal block; sklearn pairwise_distances instead of cdist; a finite sentinel instead of inf; an empty-diagram fast path placed before the second diagram's infinite-death filter; a module-level buffer cache keyed by M+N; pruning cross pairings before the 45-degree rotation; a warn-once registry for the infinite-death warnings",
+"C03": "re-insertion tie handling via A[ind:]; np.allclose duplicate detection; a filter dropping negative births; an off-by-one scan-resume pointer for touching bars; dropping empty diagrams before indexing by hom_deg; a plain lexicographic initial sort; rounding the selected diagram to 8 decimals; not re-queueing a residual bar equal to a waiting one",
+"C04": "np.isclose in the isotropic fast-path test; de-duplicating rows with multiplicities; hoisting marginal CDFs in bvn_cdf for negative correlation; linear_ramp keeping an integer dtype; skipping pairs whose weight is not positive; not forwarding skew in the n_jobs branch; range setters that rebuild the mesh only when the resolution changes; dividing by the variance instead of the standard deviation in bvn_cdf",
+"C05": "dropping leftover capacity in check_assignment_feasibility; early return in find_ub for equal sizes; keeping only maximal rows in the Theorem-B check; mirroring lower bounds into the upper-bound matrix; frequency tables stored in the distance matrix's dtype; a label-dependent 'not isometric' trivial bound; keeping only the upper triangle of the adjacency; sizing the frequency tables by the wrong diameter",
+"C06": "detecting diagonal-diagonal rows by cost; a row filter dropping index-0 diagonal matches; comparing the column index against M instead of N; no placeholder for diagrams emptied by the inf filter; removing birth==death points before matching in wasserstein; an off-by-one in the bottleneck matching extraction loop; sklearn euclidean_distances for the cross block; reading D[i, j] after re-indexing in the bottleneck matching loop",
+"C07": "cancelling common points in bottleneck; a finite sentinel instead of inf in wasserstein; a sorted-columns equality shortcut; a per-size workspace reused between calls; sklearn pairwise_distances for the cross block; stripping near-diagonal points with np.isclose; merging near-duplicate candidate thresholds with an absolute tolerance; an L2 instead of L1 norm in an empty-diagram fast path",
+"C08": "snapping with searchsorted; computing grid indices by int((b-start)/step); `start or min` defaults; skipping bars narrower than two steps; rounded float keys in the grid dictionary; a copy-paste slip of start/stop in the transformer constructor; measuring the rising ramp from the un-snapped birth; keeping the snapping work matrix in the diagram's dtype",
+"C09": "a sign dropped in the coincident-breakpoint branch of sum_slopes; in-place accumulation in approx __add__; a signed merge in exact __sub__; snap_pl keeping the values dtype; moving compute_landscape() calls so that a lazily built right operand is never computed; rejecting tiny non-zero divisors; dropping identically-zero depths in the approx constructor; losing hom_deg in exact __truediv__",
+"C10": "a duplicated clause in the sign-crossing test; sup norm over depth 0 only; np.isclose in the flat-segment test; stopping the depth loop at the first zero depth; values_to_pairs keeping an integer dtype; p_norm computing the landscape only on the sup-norm path; in-place accumulation in approx __add__; a trapezoid shortcut for p == 1",
+"C11": "np.unique on the diagram; dropping the private copy before the skew; a stale cdf cache keyed by the first birth; not forwarding skew in the parallel branch; linear_ramp using zeros_like(pers) (integer truncation); mis-restoring the order / dropping arguments in the parallel branch; in-place division of the mesh in the isotropic fast path; an operator-precedence slip in the Genz branch of bvn_cdf",
+"C12": "an early return in _create_mesh; floor division in the pixel count; np.isclose snapping of the pixel count; the pixel_size setter re-padding the requested ranges; padding computed with a float modulo; fit_transform not forwarding skew to fit; max(..., initial=0.0) in fit; a transposed zero image for empty diagrams inside collections",
+"C13": "a signed xmy in the Genz branch; np.isclose in the gaussian dispatch; a wrong Gauss-Legendre abscissa digit; width/height mixed up in the uniform kernel; sbvn_cdf standardising its inputs in place; moving the non-negativity clamp in the Genz tail; a wrong index in hoisted reciprocal standard deviations of sbvn_cdf; an lru_cache on the quadrature rule combined with in-place weight scaling",
+"C14": "an np.allclose fast path; np.unique on the points; a 3-sigma truncation; expanding |p-q|^2 as |p|^2+|q|^2-2pq; memoising the self kernel by object identity; partial sums stored in the diagram's dtype; exp(-b)*expm1(b-a) overflow; a finite bound instead of inf in wasserstein's augmented matrix",
+"C15": "a module-level cache of directions; a sort(axis=0) equality shortcut; directions from a float np.arange; an np.isclose pre-filter of diagonal points; an in-place centring preamble; a module-level diagonal-projection helper with a subtle sign/shape slip; casting diagonal projections to the diagram's dtype; 1e10 instead of inf in wasserstein's augmented matrix",
+"C16": "in-place substitution of infinities; np.all(l) > 0; hoisting the normalisation out of the per-diagram loop; np.minimum as the infinity substitution; `if val_inf:` truthiness; clamping the total length with max(sum, 1e-10); np.unique on the bars; letting val_inf override keep_inf=False",
+"C17": "an unsigned dtype bound; copying lower bounds into the upper-bound matrix; picking the largest component by size equality; reducing dense inputs to the upper triangle; a label-dependent isometry test in find_lb; restricting to the largest component before shortest paths; isinstance(AG, spmatrix) instead of issparse; dropping left-over capacity in check_assignment_feasibility",
+"C18": "in-place division of the fitted mesh; `if not self.start`; keeping the old range on a degenerate axis in fit; nesting the fixed-stop test under the fixed-start test; applying the dispatch permutation twice in the parallel transform; fit_transform not forwarding skew; unwrapping results by len(...) == 1 instead of the singular flag; transform writing start/stop back into the estimator",
+"C19": "np.asarray instead of a copy in plot_diagrams; random.randrange in construct_mapping; np.nan_to_num(copy=False) in persistent_entropy; in-place accumulation in approx __add__; shortest_path(overwrite=True) on the caller's array; in-place updates in the isotropic fast path of _transform; linear_ramp with zeros_like(pers); default parameter dicts shared between imager instances",
+"C20": "np.asarray instead of a copy in plot_diagrams; idx/i confusion in the highlight test; the diagonal foot of (-1, j) rows taken from the first diagram; lifetime conversion moved into the scatter loop; axis range from rows with finite death only; a mix-up in the plot_landscape_simple dispatcher; the infinity-line position computed before the lifetime range reset; default legend labels numbered after the plot_only selection",
 }
 T = '''You are helping to evaluate a verification framework for the Python library scikit-tda/persim (persistence-diagram tools: bottleneck/Wasserstein/mGH distances, persistence images, landscapes, kernels, plotting). Your job is to play the role of a realistic, subtle regression: produce changes to persim's source that BREAK the property below while the library still imports and the existing test suite still passes.
 
 Your private scratch git worktree of the repository is at: WORKTREE
 Work ONLY inside that directory (never touch /repo or /verif, never read /verif). To make Python import the worktree copy instead of the installed one, always run with:  cd WORKTREE && PYTHONPATH=WORKTREE /venv/bin/python ...
 The existing test suite is run with: cd WORKTREE && PYTHONPATH=WORKTREE /venv/bin/python -m pytest -q -p no:cacheprovider --timeout=900 -x   (108 tests, ~30 s; they must all still pass with your change applied).
-There is no network. Files under persim/_verif.py and `if _verif.enabled:` lines are inert instrumentation; leave them alone.
+There is no network. NEVER use `git stash` (the stash is shared between worktrees and other people are working in sibling worktrees): to go back to a clean tree use `git diff > file; git checkout -- .` and `git apply file` to restore. Files under persim/_verif.py and `if _verif.enabled:` lines are inert instrumentation; leave them alone.
 
 THE PROPERTY
 ------------
@@ -42,7 +42,7 @@ Produce TWO different, independent changes (call them A and B), each a small sou
  1. break the property above on the real code (for some inputs/configurations/histories), and
  2. leave all 108 existing tests passing, and
  3. need something SPECIFIC to manifest -- a particular kind of input (ties, repeated points, off-grid values, a particular size, shape, dtype or sign, a branch threshold, extreme scale, an unusual but legal container or option), a particular multi-step sequence of calls, a particular configuration/seed, or two cooperating sites that each look fine alone. NOT something that every ordinary call exposes at once.
-Three earlier rounds already explored these ideas, so do NOT use them or close variants of them: AVOID_TEXT. Look for DIFFERENT code sites and DIFFERENT mechanisms: read the whole call path of the property (helpers, shared utilities, constructors, option handling, input normalisation, the code that feeds the anchored function and the code that post-processes its result), and prefer a site the earlier ideas did not touch. At least one of A and B should live outside the function(s) named in the code anchors if the call path allows it. A and B should also differ from each other.
+Four earlier rounds already explored these ideas, so do NOT use them or close variants of them: AVOID_TEXT. Look for DIFFERENT code sites and DIFFERENT mechanisms: read the whole call path of the property (helpers, shared utilities, constructors, option handling, input normalisation, the code that feeds the anchored function and the code that post-processes its result), and prefer a site the earlier ideas did not touch. At least one of A and B should live outside the function(s) named in the code anchors if the call path allows it. A and B should also differ from each other.
 
 For each change write, inside WORKTREE/seeded_out/ (create it):
  - A.diff / B.diff : the patch, produced with `git diff` from a clean tree containing only that one change (so it applies with `git apply` to a clean checkout of the same commit). Reset the worktree (git checkout -- .) between A and B so each diff is independent.
